@@ -502,3 +502,55 @@ V('c09-benign-guard-named', 'C09', 'silent', (HRc, '''        let _guard = CellG
         let res = f();
         drop(restore_on_exit);
         res'''))
+
+# ---- C14
+V('c14-no-reloader-check', 'C14', 'C14.R3', (HRc, '''    fn insert_file(&mut self, reloader: &HotReloader, id: SharedString, ext: SharedString) {
+        if self.reloader == reloader {''', '''    fn insert_file(&mut self, reloader: &HotReloader, id: SharedString, ext: SharedString) {
+        if self.reloader == reloader || !id.is_empty() {'''))
+V('c14-global-not-thread-local', 'C14', 'C14.R1', (HRc, '''thread_local! {
+    static RECORDING: Cell<Option<NonNull<Record>>> = const { Cell::new(None) };
+}''', '''struct SyncCell(Cell<Option<NonNull<Record>>>);
+unsafe impl Sync for SyncCell {}
+struct Global(SyncCell);
+impl Global {
+    fn with<R>(&'static self, f: impl FnOnce(&Cell<Option<NonNull<Record>>>) -> R) -> R {
+        f(&self.0 .0)
+    }
+}
+static RECORDING: Global = Global(SyncCell(Cell::new(None)));'''))
+V('c14-record-only-when-present', 'C14', 'C14.R4', (A, '''                let (id, entry) = match self.assets().get(id, typ.type_id) {
+                    Some(entry) => (entry.id().clone(), Some(entry)),
+                    None => (id.into(), None),
+                };
+                records::add_record(reloader, id, typ.type_id);
+                return entry;''', '''                let entry = self.assets().get(id, typ.type_id);
+                if let Some(entry) = entry {
+                    records::add_record(reloader, entry.id().clone(), typ.type_id);
+                }
+                return entry;'''))
+V('c14-owned-load-not-recorded', 'C14', 'C14.R4', (A, '''        #[cfg(feature = "hot-reloading")]
+        if typ.is_hot_reloaded() {
+            if let Some(reloader) = self.reloader() {
+                records::add_record(reloader, id.clone(), typ.type_id);
+            }
+        }
+
+        crate::asset::load_and_record''', '''        crate::asset::load_and_record'''))
+V('c14-always-nested-record', 'C14', 'C14.R4', ('src/asset.rs', '''    #[cfg(feature = "hot-reloading")]
+    if typ.is_hot_reloaded() {
+        if let Some(reloader) = cache.reloader() {''', '''    #[cfg(feature = "hot-reloading")]
+    {
+        if let Some(reloader) = cache.reloader() {'''))
+V('c14-source-read-unrecorded-helper', 'C14', 'C14.R5', (A, '''    fn exists(&self, entry: DirEntry) -> bool {
+        self.get_source().exists(entry)
+    }
+
+    fn get_cached_entry_inner''', '''    fn exists(&self, entry: DirEntry) -> bool {
+        #[cfg(feature = "hot-reloading")]
+        if let (Some(reloader), DirEntry::Directory(id)) = (self.reloader(), entry) {
+            records::add_dir_record(reloader, id);
+        }
+        self.get_source().exists(entry)
+    }
+
+    fn get_cached_entry_inner'''))
